@@ -24,6 +24,9 @@ CHECKS = {
  "C09": ("combinator semantics monitor: argument-relative oracle (each argument evaluated alone on the original input, per union stage), all permutations of ^, structural construction algebra",
          "For generated combinator nodes over disagreeing argument types: | accepts <=> some argument accepts in one of the three stages and returns an accepting argument's output (exact-type inputs returned unchanged); ^ accepts <=> exactly one argument accepts, identically for every argument order; ~ accepts <=> argument rejects, returning the input object; & equals the left fold. ~~T, duplicate/Any absorption, same-kind flattening and operator order with data classes are checked on the built types.",
          "Argument verdicts come from the library itself on fresh contexts (relation between runs). One known finding (^ exact-type shortcut). One-shot inputs skipped.", "§4 C09"),
+ "C13": ("schema-vs-parser monitor: generated documents checked by the independent jsonschema validator (check_schema; encoded parser outputs against the output document) and structural probes of the real parser against the input document's properties / required / additionalProperties",
+         "Over generated types in the JSON-expressible negation-free fragment and generated data classes in modes {None,r,w,a} (mode through class Options and through the generator argument), input and output views, with and without $defs.",
+         "Trusted: the jsonschema package (Draft 2020-12, no format assertion). Five defects repaired in /repo (generator mode argument, case-folded property names, output-view required/dependentRequired, bool leaking from int conversion); five mechanism-keyed known findings remain.", "§4 C13"),
  "C14": ("encode/parse round-trip monitor with a strict-JSON reader: instance -> json.dumps(cls=JSONEncoder) -> standard-JSON check -> Cls.__from__(text) -> field-wise type-aware equality",
          "Over generated data classes whose instances are drawn from the JSON-faithful domain the property states (all listed scalar types, containers, nesting; offsets of both signs incl. seconds; negative/sub-second durations; JS-unsafe numbers; +-inf): encoding succeeds, the text is standard JSON, and the re-parsed instance is equal.",
          "Trusted: json (stdlib) as the strict reader, eq() in vmon/props/c14.py. Two known findings (Infinity token; attribute-based DataClass has no encoder); one defect repaired (negative UTC offsets).", "§4 C14"),
